@@ -107,8 +107,14 @@ func (u *Universe) reachable() map[*ssa.Function]bool {
 	return seen
 }
 
+// functions that may read the runner's data map (C10: evaluation reads the data only through
+// identifiers and `this`; SetThisValue reads the field to create the map)
+var dataReaders = map[string]bool{
+	"(*Runner).resolveIdentifier": true, "(*Runner).resolveLiteralExpression": true, "(*Runner).SetThisValue": true,
+}
+
 func (u *Universe) runSweeps(inlined map[string]bool) []sweepResult {
-	var globals, conc, nondet, ast, writers []string
+	var globals, conc, nondet, ast, writers, reads []string
 	reach := u.reachable()
 	typeFile := func(name string) string {
 		if o := u.tpkg.Scope().Lookup(name); o != nil {
@@ -133,6 +139,14 @@ func (u *Universe) runSweeps(inlined map[string]bool) []sweepResult {
 						return fmt.Sprintf("%s:%d", shortFile(p.Filename), p.Line)
 					}
 					return name
+				}
+				if ld, ok := in.(*ssa.UnOp); ok {
+					if fa, ok := ld.X.(*ssa.FieldAddr); ok {
+						stT, s := derefStruct(fa.X.Type())
+						if u.typeName(stT) == "Runner" && s.Field(fa.Field).Name() == "this" && !dataReaders[name] {
+							reads = append(reads, fmt.Sprintf("%s reads Runner.this at %s", name, pos()))
+						}
+					}
 				}
 				switch x := in.(type) {
 				case *ssa.Go, *ssa.Select, *ssa.Send, *ssa.MakeChan:
@@ -220,6 +234,7 @@ func (u *Universe) runSweeps(inlined map[string]bool) []sweepResult {
 		mk("concurrency", "no goroutine, channel or select anywhere in the package", conc),
 		mk("nondeterminism", "no call of a clock, random or environment function outside funNow/funToDay", nondet),
 		mk("ast-writes", "fields of the tree types (types.go) are written only by the parser (parser.go) and the constructors/setters in types.go", ast),
+		mk("data-reads", "the runner's data map is read only by the identifier and `this` evaluators (and by SetThisValue)", reads),
 		mk("writers", "every reachable function that writes the heap is verified against a frame (it has a contract, or is inlined into a function that has one)", writers),
 	}
 }
@@ -241,4 +256,55 @@ func (u *Universe) isTreeType(t types.Type) bool {
 		}
 	}
 	return false
+}
+
+// reachableFromNames: functions reachable from the named roots ("fun*" = every builtin).
+func (u *Universe) reachableFromNames(roots ...string) map[*ssa.Function]bool {
+	seen := map[*ssa.Function]bool{}
+	var visit func(f *ssa.Function)
+	visit = func(f *ssa.Function) {
+		if f == nil || seen[f] {
+			return
+		}
+		seen[f] = true
+		for _, b := range f.Blocks {
+			for _, in := range b.Instrs {
+				for _, op := range in.Operands(nil) {
+					switch v := (*op).(type) {
+					case *ssa.Function:
+						if v.Pkg == u.pkg || (v.Origin() != nil && v.Origin().Pkg == u.pkg) || strings.Contains(v.String(), u.tpkg.Path()) {
+							n := u.displayName(v)
+							if strings.HasSuffix(n, "$bound") {
+								if m := u.funcs[strings.TrimSuffix(n, "$bound")]; m != nil {
+									visit(m)
+								}
+							}
+							visit(v)
+						}
+					case *ssa.MakeClosure:
+						visit(v.Fn.(*ssa.Function))
+					}
+				}
+				if ci, ok := in.(ssa.CallInstruction); ok && ci.Common().IsInvoke() {
+					for _, g := range u.funcList {
+						if g.Signature.Recv() != nil && g.Name() == ci.Common().Method.Name() && g.Pkg == u.pkg {
+							visit(g)
+						}
+					}
+				}
+			}
+		}
+	}
+	for _, r := range roots {
+		if r == "fun*" {
+			for n, f := range u.funcs {
+				if strings.HasPrefix(n, "fun") && f.Pkg == u.pkg {
+					visit(f)
+				}
+			}
+			continue
+		}
+		visit(u.funcs[r])
+	}
+	return seen
 }
